@@ -92,6 +92,34 @@ def run_seeded(args: Tuple[str, str, str]) -> Dict:
         shutil.rmtree(tmp, ignore_errors=True)
 
 
+def run_neutral_patch(args: Tuple[str, str, str]) -> Dict:
+    """Apply an independently written BEHAVIOUR-PRESERVING edit (/verif/neutral/<id>/neutral_k.diff) to a scratch copy:
+    the property's rules must stay silent (exit 0)."""
+    repo_root, rel, prop = args
+    tmp = tempfile.mkdtemp(prefix="cubeverif_neu_")
+    try:
+        shutil.copytree(os.path.join(repo_root, "src"), os.path.join(tmp, "src"))
+        patch = os.path.join(VERIF_ROOT, "neutral", rel)
+        p = subprocess.run(["git", "apply", "--unsafe-paths", "-p1", patch], cwd=tmp, capture_output=True, text=True)
+        if p.returncode != 0:
+            return {"id": "neutral/" + rel, "prop": prop, "kind": "N", "status": "skipped", "why": "patch does not apply to the current tree"}
+        env = dict(os.environ, CUBEVERIF_SELFTEST="1")
+        p = subprocess.run([sys.executable, "-m", "cubeverif.cli", prop, "quick", "--repo", tmp], cwd=VERIF_ROOT, env=env, capture_output=True, text=True, timeout=300)
+        status = {0: "silent", 1: "fired", 2: "analysis-error"}.get(p.returncode, f"rc{p.returncode}")
+        und = sum(1 for l in p.stdout.splitlines() if l.startswith("UNDECIDED"))
+        return {"id": "neutral/" + rel, "prop": prop, "kind": "N", "status": status, "undecided": und}
+    finally:
+        shutil.rmtree(tmp, ignore_errors=True)
+
+
+def neutral_for(prop: str) -> List[str]:
+    """The five behaviour-preserving edits written for this property's anchors (see DESIGN 8.7)."""
+    d = os.path.join(VERIF_ROOT, "neutral", prop + "n")
+    if not os.path.isdir(d):
+        return []
+    return [os.path.join(prop + "n", f) for f in sorted(os.listdir(d)) if f.endswith(".diff")]
+
+
 def seeded_for(prop: str) -> List[str]:
     d = os.path.join(VERIF_ROOT, "seeded")
     out = []
@@ -121,6 +149,8 @@ def run_for_property(repo_root: str, prop: str, workers: int = 16) -> Dict:
         for r in ex.map(run_variant, jobs):
             results.append(r)
         for r in ex.map(run_seeded, [(repo_root, sid, prop) for sid in seeded_for(prop)]):
+            results.append(r)
+        for r in ex.map(run_neutral_patch, [(repo_root, rel, prop) for rel in neutral_for(prop)]):
             results.append(r)
     b = [r for r in results if r["kind"] == "B" and r["status"] != "skipped"]
     n = [r for r in results if r["kind"] == "N" and r["status"] != "skipped"]
